@@ -25,7 +25,7 @@ func init() {
 			"R4: the callback field is invoked only in the worker, and every origin of the invoked value is nil or the callback of the future just returned by heap.Pop - directly or by a helper all of whose results are nil or such a future (a value carried over an iteration is provably nil). " +
 			"R5: Call stores time.Now().Add(d) into the fire-time field before queueing (when Call is a pure delegation `return g(f, ...)` the function that builds the future is g: the roles and R5-R8 are decided there, and the stored fire time is the parameter of g that Call hands time.Now().Add(d) to). " +
 			"R6: the heap, the worker count and the futures' index/callback fields are touched only with the package lock held (heap.Interface methods inherit the lock of their heap.* call sites; a private function is entered with the locks held at all of its call sites, a fixed point over the package; objects under construction - the future in Call, the control block in its constructor - and package init are exempt). " +
-			"R7: the queue's slice and its elements are written only by the heap.Interface methods (all removals go through Pop, which resets the index); the holder of the queue (the control block's heap field, the control block, the package variable) is stored to, outside init and construction, only when the queue is known to be empty or behind a loop over the whole queue that gives every element a negative index (futures dropped with their old positions make a later Cancel remove another call); and Call hands out a freshly allocated future (a recycled object would make a late Cancel hit another caller's future). " +
+			"R7: the queue's slice and its elements are written only by the heap.Interface methods (all removals go through Pop, which resets the index), and the Push/Pop/Swap/Less methods of the queue are used only by container/heap - no static call, method value or heap.Interface invocation in package code (a direct queue.Pop() drops the last slot, an unrelated future); the holder of the queue (the control block's heap field, the control block, the package variable) is stored to, outside init and construction, only when the queue is known to be empty or behind a loop over the whole queue that gives every element a negative index (futures dropped with their old positions make a later Cancel remove another call); and Call hands out a freshly allocated future (a recycled object would make a late Cancel hit another caller's future). " +
 			"R8: a future with a callback is in the heap when Call returns: on every path of Call on which the callback is not nil, and on every path of each function the future is handed to on the way, heap.Push of that very future is executed in the caller's own activation (plain or deferred calls, not a goroutine or a side list) - Cancel reads a negative index as 'fired or cancelled' and returns, so an insertion that happens after Call has returned cannot be cancelled; the requirement falls away when Cancel withdraws the callback on every path. When the package starts other goroutines besides the worker, the worker is the started function that pops the heap.",
 		NotDecided: "actual start times and wall-clock behaviour; fairness between workers.",
 		Trusted:    []string{"container/heap calls only Len/Less/Swap/Push/Pop of the interface"},
@@ -1308,7 +1308,8 @@ func timerRules(c *Ctx, pfx string) {
 			c.Decide(pfx+"7", r.callFn, "Call hands out a fresh future", ret, isAlloc, "the future returned by Call is not freshly allocated (recycled objects let a late Cancel hit another caller's future)")
 		}
 		c.R.Floor(pfx+"7", 4)
-		c.timerQueueReplaced(r, pfx+"7") // the place that holds the queue: replaced only with all indexes reset (v_timer_g3.go)
+		c.timerQueueReplaced(r, pfx+"7")     // the place that holds the queue: replaced only with all indexes reset (v_timer_g3.go)
+		c.timerHeapMethodsCensus(r, pfx+"7") // Push/Pop/Swap/Less of the queue: called by container/heap only (v_timer_h.go)
 	}
 }
 
